@@ -537,27 +537,27 @@ func writeEvidence(vdir, prop, tier string, seed int, results []*HarnessResult, 
 		"seed":        seed,
 		"level":       "other",
 		"coverage": map[string]any{
-			"explanation": "Bounded symbolic execution of the real code's go/ssa form (regenerated from /repo on this run) with an SMT solver deciding every branch feasibility and every assertion over all values of the symbolic inputs within the stated bounds. " + note.Explanation,
-			"evaluations":         paths,
-			"distinct_nontrivial": nontrivial,
-			"rule":                "one evaluation = one symbolic path (a distinct sequence of solver-decided branch outcomes) through a harness; non-trivial = the path ends PASS and reaches at least one declared cover label; paths are distinct by construction (they differ in at least one branch decision)",
-			"samples":             samples,
-			"obligations":         obligations,
-			"discharged":          discharged,
+			"explanation":          "Bounded symbolic execution of the real code's go/ssa form (regenerated from /repo on this run) with an SMT solver deciding every branch feasibility and every assertion over all values of the symbolic inputs within the stated bounds. " + note.Explanation,
+			"evaluations":          paths,
+			"distinct_nontrivial":  nontrivial,
+			"rule":                 "one evaluation = one symbolic path (a distinct sequence of solver-decided branch outcomes) through a harness; non-trivial = the path ends PASS and reaches at least one declared cover label; paths are distinct by construction (they differ in at least one branch decision)",
+			"samples":              samples,
+			"obligations":          obligations,
+			"discharged":           discharged,
 			"obligation_instances": map[string]int{"evaluated": instances, "held": instDischarged},
-			"paths_by_outcome":    pathKinds,
-			"harnesses":           hsum,
-			"functions_encoded":   fnames,
-			"ssa_instructions":    ninstr,
-			"solver":              map[string]any{"primary": "z3 5.1.0 (z3-new -in, incremental push/pop)", "queries": queries, "solver_s": round2(solverS)},
-			"native_replays":      replayed,
-			"known_findings_hit":  knownHits,
-			"failing_obligations": failsum,
-			"inconclusive":        inconclusive,
-			"outside_claim":       note.Outside,
-			"checker_cmd":         fmt.Sprintf("/verif/check %s --tier %s", prop, tier),
-			"trusted_base":        []string{"symgo (go/ssa interpreter + SMT encoding, /verif/engine)", "golang.org/x/tools/go/ssa v0.29.0", "z3 5.1.0", "stub contracts listed in assumptions"},
-			"exhaustive":          false,
+			"paths_by_outcome":     pathKinds,
+			"harnesses":            hsum,
+			"functions_encoded":    fnames,
+			"ssa_instructions":     ninstr,
+			"solver":               map[string]any{"primary": "z3 5.1.0 (z3-new -in, incremental push/pop)", "queries": queries, "solver_s": round2(solverS)},
+			"native_replays":       replayed,
+			"known_findings_hit":   knownHits,
+			"failing_obligations":  failsum,
+			"inconclusive":         inconclusive,
+			"outside_claim":        note.Outside,
+			"checker_cmd":          fmt.Sprintf("/verif/check %s --tier %s", prop, tier),
+			"trusted_base":         []string{"symgo (go/ssa interpreter + SMT encoding, /verif/engine)", "golang.org/x/tools/go/ssa v0.29.0", "z3 5.1.0", "stub contracts listed in assumptions"},
+			"exhaustive":           false,
 		},
 		"assumptions": append([]string{"all results are bounded: see coverage.harnesses[*].bounds; loops are unwound up to bounds.unwind and a path that needs more is reported as inconclusive, never as success"}, note.Assumptions...),
 		"wall_s":      round2(wall),
